@@ -135,6 +135,47 @@ def gen_history(rnd, length):
   return ops
 
 
+def gen_structured(rnd):
+  """Build phase (chain + extra edges incl. back edges, bindings, conditions), then a burst of
+  queries with no mutation in between: exercises the caches of ONE solver lifetime."""
+  nn = rnd.randrange(3, 8)
+  nv = rnd.randrange(1, 4)
+  ops = [('node',) for _ in range(nn)] + [('var',) for _ in range(nv)]
+  for i in range(nn - 1):
+    if rnd.random() < 0.85:
+      ops.append(('connect', i, i + 1))
+  for _ in range(rnd.randrange(0, 4)):
+    a, b = rnd.randrange(nn), rnd.randrange(nn)
+    ops.append(('connect', a, b))          # forward skip, back edge or self edge
+  known = []
+  for _ in range(rnd.randrange(2, 7)):
+    v, d = rnd.randrange(nv), rnd.choice(DATA + ['C'])
+    srcs = [rnd.choice(known)] if known and rnd.random() < 0.3 else []
+    ops.append(('add_binding', v, d, srcs, rnd.randrange(nn)))
+    known.append((v, d))
+  if rnd.random() < 0.3 and known:
+    ops.append(('condition', rnd.randrange(nn), rnd.choice(known)))
+  for burst in range(rnd.choice([1, 1, 2])):
+    for _ in range(rnd.randrange(2, 7)):
+      qk = rnd.choice(['visible', 'visible', 'has', 'filter'])
+      if qk == 'visible':
+        ops.append(('Q', ('visible', rnd.choice(known), rnd.randrange(nn))))
+      elif qk == 'has':
+        ops.append(('Q', ('has', rnd.randrange(nn), [rnd.choice(known) for _ in range(rnd.choice([1, 2]))])))
+      else:
+        ops.append(('Q', ('filter', rnd.randrange(nv), rnd.randrange(nn))))
+    if burst == 0:
+      # one mutation between two bursts
+      r = rnd.random()
+      if r < 0.5:
+        ops.append(('connect', rnd.randrange(nn), rnd.randrange(nn)))
+      else:
+        v, d = rnd.randrange(nv), rnd.choice(DATA + ['C'])
+        ops.append(('add_binding', v, d, [], rnd.randrange(nn)))
+        known.append((v, d))
+  return ops
+
+
 def main():
   mode, repo = sys.argv[1], sys.argv[2]
   payload = json.loads(sys.stdin.read() or '{}')
@@ -145,7 +186,7 @@ def main():
   nq = 0
   nh = 3000 if tier == 'quick' else 40000
   for h in range(nh):
-    ops = gen_history(rnd, rnd.choice([6, 10, 16, 24]))
+    ops = gen_structured(rnd) if h % 2 else gen_history(rnd, rnd.choice([6, 10, 16, 24]))
     live = World(cfg)
     log = []
     bad = False
@@ -179,7 +220,7 @@ def main():
   print(json.dumps(dict(
       violations=violations,
       bounded=[dict(function='cfg.Program / CFGNode / Variable / Binding Python API (compiled extension)',
-                    bound='%d random histories of <=24 operations (<=6 nodes, <=4 variables, 2 data values, conditions, pastes), every query compared with a replica rebuilt from the mutation log and asked twice' % nh,
+                    bound='%d random histories (half: <=24 interleaved operations on <=6 nodes, <=4 variables, 2 data values, conditions, pastes; half: a built graph of <=7 nodes with back edges and <=6 bindings followed by bursts of <=6 queries without mutation), every query compared with a replica rebuilt from the mutation log and asked twice' % nh,
                     cases=nq)],
       spec_validation=[],
       counts=dict(histories=nh, queries=nq)), default=str))
